@@ -4,7 +4,7 @@
    the invalid ones before reducing (NaN masking), except for the bitwise and/or reductions. *)
 From Coq Require Import QArith.
 From HS Require Import Prelude Cov Map Spec Ops Spec2 Params AtFold MapProofs UpdateProofs HistoryProofs
-     LayoutProofs AccountProofs OpsProofs RebuildProofs CongRefine Rehouse Exec Exec2 ExecProofs.
+     LayoutProofs AccountProofs OpsProofs RebuildProofs CongRefine Rehouse DegradeCoarse Exec Exec2 ExecProofs.
 Open Scope Z_scope.
 
 Section C07.
@@ -108,6 +108,42 @@ Theorem C07_interpreter_rehousing_is_the_model :
     rehouse (xparams k) n' nf' m.
 Proof. intros. reflexivity. Qed.
 
+(* "the result is the same ... as for an equal map built with that coarser coverage resolution": for a reduction
+   that looks only at the valid children, two well-formed maps with the same valid pixels and values — any
+   coverage resolutions, block orders, contents of invalid cells — degrade to the same value at every coarse
+   pixel both cover (where one does not cover it there is no valid child: the sentinel for the masked
+   reductions, 0 / 1 for sum / prod inside covered coverage pixels, the caveat of the property) *)
+Theorem C07_maps_equal_on_their_valid_pixels_degrade_alike :
+  forall (P P' : params) (red : list (p_V P * p_V P') -> p_V P') (r : Z) (nb : p_V P')
+         (m1 m2 : smap (p_V P)) (wsp1 wsp2 wd : list (p_V P')) (q : Z),
+    MapProofs.wf P m1 -> MapProofs.wf P m2 -> 0 < r -> nfine m1 mod r = 0 -> nfine m2 mod r = 0 ->
+    aligned P P' m1 wsp1 wd -> aligned P P' m2 wsp2 wd ->
+    valid_only P P' red -> valid_equal P m1 m2 ->
+    0 <= q < npix (p_V P) m1 / r ->
+    covered (p_V P) m1 (q / (nfine m1 / r)) = true -> covered (p_V P) m2 (q / (nfine m2 / r)) = true ->
+    read (p_V P') (p_dv P') (degrade2 (p_V P) (p_V P') red r nb m1 wsp1) q =
+    read (p_V P') (p_dv P') (degrade2 (p_V P) (p_V P') red r nb m2 wsp2) q.
+Proof. exact degrade_of_valid_equal_maps. Qed.
+
+(* in particular re-house-then-degrade (what degrade does below the coverage resolution) against the original *)
+Theorem C07_degrade_after_rehousing_equals_degrade :
+  forall (P P' : params) (red : list (p_V P * p_V P') -> p_V P') (r : Z) (nb : p_V P')
+         (n' nf' : Z) (m : smap (p_V P)) (wsp wsp' wd : list (p_V P')) (q : Z),
+    MapProofs.wf P m -> 0 <= n' -> 0 < nf' -> n' * nf' = npix (p_V P) m -> 0 < r -> nfine m mod r = 0 -> nf' mod r = 0 ->
+    aligned P P' m wsp wd -> aligned P P' (rehouse P n' nf' m) wsp' wd ->
+    valid_only P P' red -> 0 <= q < npix (p_V P) m / r ->
+    covered (p_V P) m (q / (nfine m / r)) = true -> covered (p_V P) (rehouse P n' nf' m) (q / (nf' / r)) = true ->
+    read (p_V P') (p_dv P') (degrade2 (p_V P) (p_V P') red r nb (rehouse P n' nf' m) wsp') q =
+    read (p_V P') (p_dv P') (degrade2 (p_V P) (p_V P') red r nb m wsp) q.
+Proof. exact degrade_after_rehousing. Qed.
+
+(* every executable reduction but the bitwise and / or (which fold all children) looks only at the valid children *)
+Theorem C07_executable_reductions_look_only_at_valid_children :
+  forall (k kout : kinfo) (code : Z) (nb : cellv),
+    (code =? 8) || (code =? 9) = false ->
+    valid_only (xparams k) (xparams kout) (red_cells k code kout nb).
+Proof. exact executable_reductions_are_valid_only. Qed.
+
 Print Assumptions C07_degrade_reduces_the_children.
 Print Assumptions C07_degrade_refines.
 Print Assumptions C07_degrade_keeps_layout.
@@ -116,3 +152,6 @@ Print Assumptions C07_no_valid_child_is_invalid.
 Print Assumptions C07_hypotheses_satisfiable.
 Print Assumptions C07_rehousing_gives_an_equal_map_with_the_coarser_coverage.
 Print Assumptions C07_interpreter_rehousing_is_the_model.
+Print Assumptions C07_maps_equal_on_their_valid_pixels_degrade_alike.
+Print Assumptions C07_degrade_after_rehousing_equals_degrade.
+Print Assumptions C07_executable_reductions_look_only_at_valid_children.
